@@ -49,6 +49,13 @@ def make_obs(ctx):
                           units=UNITS, unwind=44, group='rt:default', timeout=300,
                           bounds=dict(b, format='default output of the calendar, format-less parser'),
                           kfwhole='rt_default_' + rp))
+    # times of day: every h:m:s through each enumerated time format
+    tf = [('%H:%M:%S', 7), ('%T', 7), ('%I:%M:%S %p', 7), ('%I:%M:%S%P', 7), ('%p %I.%M.%S', 7), ('%H%M%S', 7), ('%Hh %Mm %Ss', 7),
+          ('%H:%M', 3), ('%I:%M %p', 3), ('%M:%S', 6), ('%H', 1), ('%I%p', 1), ('%S', 4)]
+    for (f, keep) in tf:
+        obs.append(Ob('rt:time:%s' % f.replace(' ', '_'), 'C09_time.c', 'h_rt_time', {'FMT': q(f), 'KEEP': keep},
+                      units=['lib/token.c'], unwind=len(f) + 6, group='rt:time', timeout=300,
+                      bounds={'times': 'every h:m:s of the day', 'format': f}, kfwhole='rt_time_' + core.treekey(f)))
     return obs
 
 
@@ -57,6 +64,6 @@ def run(tier, seed):
         'C09', tier, seed, make_obs,
         level_note=('formats enumerated (the program), days symbolic per year window: one query decides strp(strf(v)) == v '
                     'and full consumption for every day of the window'),
-        assumptions=['built-in English names (shipped locales not yet covered)', 'date formats only; time and date-time formats, %s, %Z not yet covered',
+        assumptions=['built-in English names (shipped locales not yet covered)', 'date formats and time-of-day formats; date-time formats, %s, %Z, nanoseconds, 24:00:00 and leap seconds not yet covered',
                      'formats listed in vf/props/C09.py; longer or other formats outside'],
         stubs=[])
